@@ -21,7 +21,7 @@
 (***************************************************************************)
 EXTENDS Integers, Sequences, FiniteSets, TLC, Json
 
-CONSTANTS Procs, MaxOps, MaxOps2, KindSet, MaxObjs, MaxGC,
+CONSTANTS Procs, MaxOps, MaxOps2, KindSet, MaxObjs, MaxGC, ProjOn,
           SinkOrder,   \* "write-then-free" = code; "free-then-write" = spec mutant
           RBufClear,   \* "clear" = code (putJSONEncoder nils reflectBuf after freeing it); "keep" = spec mutant
           HookOrder,   \* "hook-then-put" = code; "put-then-hook" = spec mutant
@@ -35,14 +35,16 @@ VARIABLES pools,   \* [ce, enc, buf] -> sequence of object ids
           encR,    \* encoder id -> its reflectBuf reference (0 = nil)
           gcs,     \* garbage collections so far (a GC empties every pool)
           pc, kind, opno, held,   \* per process: step, kind of the current call, call counter, [ce, enc, buf, rbuf] it holds
-          bad, sched
-vars == <<pools, nobj, data, ceOf, encR, gcs, pc, kind, opno, held, bad, sched>>
+          stream,  \* what the (lock-protected) sink received, in order: the <<proc, opno>> whose bytes each line carried
+          bad, sched,
+          proj     \* the schedule projected onto the steps a harness can force from outside: <<proc, "encode" | "sink">>
+vars == <<pools, nobj, data, ceOf, encR, gcs, pc, kind, opno, held, stream, bad, sched, proj>>
 
 None == [ce |-> 0, enc |-> 0, buf |-> 0, rbuf |-> 0]
 Init == /\ pools = [ce |-> <<>>, enc |-> <<>>, buf |-> <<>>] /\ nobj = 0
         /\ data = [i \in 1..MaxObjs |-> <<0, 0>>] /\ ceOf = [i \in 1..MaxObjs |-> <<0, 0>>] /\ encR = [i \in 1..MaxObjs |-> 0]
         /\ pc = [p \in Procs |-> "idle"] /\ kind = [p \in Procs |-> "plain"] /\ opno = [p \in Procs |-> 0]
-        /\ held = [p \in Procs |-> None] /\ bad = "" /\ sched = <<>> /\ gcs = 0
+        /\ held = [p \in Procs |-> None] /\ bad = "" /\ sched = <<>> /\ gcs = 0 /\ stream = <<>> /\ proj = <<>>
 
 Rec(p, a) == sched' = Append(sched, <<p, a>>)
 HeldBy(o, slot) == {p \in Procs : held[p][slot] = o}
@@ -95,6 +97,7 @@ PutEnc(p) == /\ pc[p] = "putenc"
              /\ pc' = [pc EXCEPT ![p] = IF SinkOrder = "write-then-free" THEN "sink" ELSE "free"]
              /\ UNCHANGED <<nobj, data, ceOf, kind, opno, bad>> /\ Rec(p, "putenc")
 Sink(p) == /\ pc[p] = "sink"
+           /\ stream' = Append(stream, data[held[p].buf])
            /\ bad' = IF bad = "" /\ data[held[p].buf] # Me(p) /\ held[p].buf # 0 THEN "sink saw foreign bytes" ELSE bad
            /\ pc' = [pc EXCEPT ![p] = IF SinkOrder = "write-then-free" THEN "free" ELSE (IF kind[p] \in {"hook", "reflect-hook"} /\ HookOrder = "hook-then-put" THEN "hook" ELSE "putce")]
            /\ UNCHANGED <<pools, nobj, data, ceOf, encR, kind, opno, held>> /\ Rec(p, "sink")
@@ -121,14 +124,19 @@ PutCE(p) == /\ pc[p] = "putce"
 \* a garbage collection empties the pools (objects in use are unaffected)
 GC == /\ gcs < MaxGC /\ gcs' = gcs + 1 /\ pools' = [ce |-> <<>>, enc |-> <<>>, buf |-> <<>>]
       /\ UNCHANGED <<nobj, data, ceOf, encR, pc, kind, opno, held, bad>> /\ sched' = Append(sched, <<0, "gc">>)
-Next == \/ GC
+NextStep == \/ GC /\ UNCHANGED stream
         \/ /\ UNCHANGED gcs
            /\ \E p \in Procs :
-               \/ \E k \in KindSet : Start(p, k)
-               \/ \E f \in BOOLEAN : GetCE(p, f) \/ GetEnc(p, f) \/ GetBuf(p, f) \/ GetRBuf(p, f)
-               \/ Encode(p) \/ PutEnc(p) \/ Sink(p) \/ Free(p) \/ Hook(p) \/ PutCE(p)
+               \/ Sink(p)
+               \/ /\ UNCHANGED stream
+                  /\ \/ \E k \in KindSet : Start(p, k)
+                     \/ \E f \in BOOLEAN : GetCE(p, f) \/ GetEnc(p, f) \/ GetBuf(p, f) \/ GetRBuf(p, f)
+                     \/ Encode(p) \/ PutEnc(p) \/ Free(p) \/ Hook(p) \/ PutCE(p)
+Next == /\ NextStep
+        /\ proj' = IF Len(sched') > Len(sched) /\ sched'[Len(sched')][2] \in {"encode", "sink"} /\ ProjOn
+                   THEN Append(proj, sched'[Len(sched')]) ELSE proj
 Spec == Init /\ [][Next]_vars
-View == <<pools, nobj, data, ceOf, encR, gcs, pc, kind, opno, held, bad>>
+View == <<pools, nobj, data, ceOf, encR, gcs, pc, kind, opno, held, stream, bad>>
 
 \* ---- C08 / C04 ------------------------------------------------------------
 NoForeignData == bad = ""
@@ -138,6 +146,13 @@ Exclusive == /\ \A o \in 1..nobj : Cardinality(BufHolders(o)) <= 1
                   Cardinality({i \in 1..Len(pools[pl]) : pools[pl][i] = o}) <= 1
              /\ \A o \in 1..nobj : (InPool("buf", o) /\ SinkOrder = "write-then-free") => BufHolders(o) = {}
              /\ \A o \in 1..nobj : Cardinality(HeldBy(o, "enc")) <= 1 /\ (InPool("enc", o) => HeldBy(o, "enc") = {})
+\* C04: the sink holds one intact line per completed sink write: never a line twice, never a foreign or empty one,
+\* each goroutine's lines in the order it logged them; when everything has finished, every call exactly once
+StreamSound == /\ \A i, j \in 1..Len(stream) : i < j => stream[i] # stream[j]
+               /\ \A i \in 1..Len(stream) : stream[i][1] \in Procs /\ stream[i][2] >= 1 /\ stream[i][2] <= opno[stream[i][1]]
+               /\ \A i, j \in 1..Len(stream) : (i < j /\ stream[i][1] = stream[j][1]) => stream[i][2] < stream[j][2]
+StreamComplete == (\A p \in Procs : pc[p] = "idle") => \A p \in Procs : \A k \in 1..opno[p] : \E i \in 1..Len(stream) : stream[i] = <<p, k>>
 AllIdle == \A p \in Procs : pc[p] = "idle" /\ opno[p] = OpsOf(p)
-EmitBeh == IF Emit /\ AllIdle THEN PrintT("@@BEH " \o ToJson([sched |-> sched])) ELSE TRUE
+EmitBeh == IF Emit /\ AllIdle THEN PrintT("@@BEH " \o ToJson([sched |-> IF ProjOn THEN proj ELSE sched])) ELSE TRUE
+ProjView == <<View, proj>>
 =============================================================================
